@@ -15,6 +15,8 @@ func checkC12(p *Prog, r *Report) {
 	// the mtime must actually be applied for repeat syncs to be no-ops
 	checkOptionGuardsAs(p, r, "C12/MTIME-APPLIED", true)
 	checkSetPermsPathsAs(p, r, "C12/MTIME-APPLIED-PATHS")
+	// the update rule compares with the sender's size, mtime and (under -c) checksum: they must be on the wire for every entry
+	checkEncoderCarries(p, r, "C12/WIRE-FIELDS", "the update rule's inputs are on the wire for every entry: for every (file type × option subset) the entry encoder emits exactly one record sequence with the entry's own length and mtime (never 'same as previous', whose reference entry differs between the ends for the first entry of a source argument or after an excluded entry) and the 16-byte whole-file checksum iff -c")
 	r.Trust("time.Time.Truncate/Equal semantics; bytes.Equal")
 	r.Uncovered("that equal decision tables imply equal behaviour for all timestamps; repeat-sync idempotence end to end (needs C11: mtime applied after the rename)")
 }
